@@ -907,3 +907,39 @@ theorem sentres_step (k : Key) (s s' : State) (tid : Nat) (own : ∀ t, OwnPc t 
            simp only [upd, if_neg e2]; exact hs)
 
 end NQ.Hub
+
+namespace NQ.Hub
+
+/-! ### Value-snapshot semantics: a queued / delivered value is never rewritten
+
+In the model a message is a VALUE fixed by the send operation (`Op.send … m`): what `send_structured` hands to the
+hub is `json.dumps(msg.__dict__)` evaluated at the time of the call (an immutable `str`).  No step rewrites an
+element of a queue, of a callback store or of the histories: a queue only grows at the tail (by the value carried
+by the sending operation) and shrinks at the head. -/
+theorem msgs_step_shape (k : Key) (s s' : State) (tid : Nat) (h : step s tid = some s') :
+    s'.msgs k = s.msgs k ∨ (∃ m more k0, (s.threads tid).pc = .sAppend k0 m more ∧ s'.msgs k = s.msgs k ++ [m]) ∨
+    (∃ m, s.msgs k = m :: s'.msgs k) := by
+  step_cases h s tid hpc
+  all_goals
+    first
+      | exact Or.inl rfl
+      | (simp only [msgs_setThread, upd]; split
+         · rename_i e; subst e; right; left; exact ⟨_, _, _, rfl, rfl⟩
+         · exact Or.inl rfl)
+      | (simp only [msgs_setThread, upd]; split
+         · rename_i e; subst e; right; right; exact ⟨_, by assumption⟩
+         · exact Or.inl rfl)
+
+theorem cbStore_step_shape (k : Key) (s s' : State) (tid : Nat) (h : step s tid = some s') :
+    s'.cbStore k = s.cbStore k ∨
+    (∃ m more k0, (s.threads tid).pc = .sCall k0 m more ∧ s'.cbStore k = s.cbStore k ++ [m]) := by
+  step_cases h s tid hpc
+  all_goals
+    first
+      | exact Or.inl rfl
+      | (simp only [cbStore_setThread, upd]; split
+         · rename_i e; subst e; right; exact ⟨_, _, _, rfl, rfl⟩
+         · exact Or.inl rfl)
+
+end NQ.Hub
+
